@@ -1,5 +1,5 @@
 """C11 -- both solver back-ends solve the same problem and report duals in one convention."""
-from . import wrappers, pepsolve, translate, state, common, mosekprog
+from . import wrappers, pepsolve, translate, state, common, mosekprog, translprog
 
 LEVEL = "other"
 EXPLANATION = ("Sibling cross-checking of the two subclasses of the wrapper base class -- the only way to examine the MOSEK back-end in this sandbox "
@@ -27,6 +27,7 @@ def run(ctx):
     wrappers.r_trilorder(ctx)
     wrappers.r_mosekrow(ctx)
     translate.r_transl(ctx)
+    translprog.r_translators(ctx)   # both translators give the expression's meaning on the same abstract expressions: they agree
     pepsolve.r_objsense(ctx)
     state.r_objective_fresh(ctx)
     nd = mosekprog.r_mosek_duals(ctx)
